@@ -76,6 +76,8 @@ Fixpoint sel2 (tg : N -> strig) (szf : N -> N) (hc : bool) (x : sctx2) (d : N) (
         end
   end.
 
+Definition x02z (fm : bool) (gd thr gz : N) : sctx2 :=
+  {| dead2 := false; scope2 := negb fm; budget2 := gd; lim2 := gd; cthr2 := thr; csz2 := gz |}.
 Definition x02 (fm : bool) (gd thr : N) : sctx2 :=
   {| dead2 := false; scope2 := negb fm; budget2 := gd; lim2 := gd; cthr2 := thr; csz2 := 0 |}.
 
@@ -84,7 +86,3 @@ Definition x02 (fm : bool) (gd thr : N) : sctx2 :=
 Definition wf_tg (tg : N -> strig) : Prop :=
   forall a, (forall n, sd (tg a) = Some n -> 0 < n /\ n <> FILTER_NO_MAX_DEPTH) /\
             (forall t, stm (tg a) = Some t -> t <> NO_TIME).
-(* -pg / fentry / PLT shape: a time= or size= trigger on a function that has neither a filter nor a depth= trigger can
-   be applied to a call that is then rejected by the depth limit - the known leak (pg-reject-leak) *)
-Definition pg_guard (tg : N -> strig) : Prop :=
-  forall a, stm (tg a) <> None \/ ssz (tg a) <> None -> sf (tg a) <> None \/ sd (tg a) <> None.
